@@ -26,7 +26,7 @@ def _targets(ops, info):
 def program(g, ci):
     r = g.r
     sg = SeqGen(g)
-    SR = r.choice([100, 1e3, 1e6, 1e9, 10])
+    SR = r.choice([100, 1e3, 1e6, 1e9, 10, 1.2e9, 2.4e9])
     with_subs = r.random() < 0.3
     factor = 1 if with_subs else r.choice([1, 1, 1, 2, 0.5])
     ops, info = sg.sequence("s", npos=(1, 3), nch=(1, 3), SR=SR, raw_p=0.3, kinds=("ramp", "sine"), flags_p=0.3,
@@ -41,6 +41,7 @@ def program(g, ci):
             ops.append({"op": "sq.setDelay", "id": "s", "ch": ch, "v": enc(r.choice(dpool) / SR)})
     has_arrays = any(o["op"] == "el.addArray" for o in ops)
     live = ["s"]
+    rerated = False
     names = sorted({o[k] for o in ops for k in ("id", "to") if isinstance(o.get(k), str)})
 
     def observe(ids):
@@ -50,6 +51,14 @@ def program(g, ci):
         out.append({"op": "heap.summary", "vars": sorted(set(names + live))})
         return out
 
+    if ci % 9 == 4:
+        # a sequence that lacks a setting (sample rate, an amplitude, an offset): getters are read first, outputs raise
+        drop = r.choice(["sq.setSR", "sq.setAmp", "sq.setOff"])
+        victim = next((o for o in ops if o["op"] == drop and o["id"] == "s"), None)
+        if victim is not None and not with_subs:
+            ops.remove(victim)
+            ops += [{"op": "sq.SR", "id": "s"}, {"op": "sq.channels", "id": "s"}, {"op": "sq.points", "id": "s"},
+                    {"op": "sq.awg", "id": "s"}, {"op": "sq.seqx", "id": "s"}]
     ops += observe(["s"])
     tg = _targets(ops, info)
     k = 0
@@ -96,13 +105,14 @@ def program(g, ci):
                      "order": r.choice([-2, -1, 1, 2]), "orderIsInt": True, **spec, "_errclass": True}]
         elif u < 0.68:
             step = [{"op": "sq.setSR", "id": x, "v": enc(SR * r.choice([1, 2, 0.5]))}]
+            rerated = True
         elif u < 0.72:
             step = [{"op": "sq.setName", "id": x, "name": r.choice(["rabi", "t1", ""])}]
         elif u < 0.8 and tg and x == "s":
             pos, ch, n, f = r.choice(tg)
             arg = r.choice(FN_PARAMS[f][1:] if f == "sine" else FN_PARAMS[f])
             step = [{"op": "sq.elChangeArg", "id": "s", "pos": pos, "ch": ch, "name": n, "arg": enc(arg),
-                     "value": enc(r.choice([0.375, -0.625, 1.0])), "all": r.random() < 0.2}]
+                     "value": enc(r.choice([0.375, -0.625, 1.0])), "all": r.random() < 0.2, "_np": r.random() < 0.3}]
         elif u < 0.86 and info["els"] and x == "s":
             # an element put (again) at a position that may be occupied
             pos = r.choice(list(info["els"]))
@@ -112,7 +122,14 @@ def program(g, ci):
                 pre = [{"op": "el.addFlags", "id": eid, "ch": r.choice(chans), "flags": [enc(r.choice([0, 1, "", "T", 4])) for _ in range(4)]}]
             step = pre + [{"op": "sq.addElement", "id": "s", "pos": r.choice([pos, pos, P + 1]), "el": eid}]
         else:
+            if r.random() < 0.2 and factor == 1 and not rerated:
+                # written to JSON and read back: the read-back object joins the walk (only while the sequence runs at its
+                # elements' rate: reading back re-rates the blueprints, and half a rate makes rounding ties)
+                new = f"j{k}"
+                ops += [{"op": "sq.json", "id": x, "to": new, "_errclass": False}] + observe([new])
+                names.append(new)
             rd = [{"op": "sq.channels", "id": x}, {"op": "sq.points", "id": x}, {"op": "sq.duration", "id": x}, {"op": "sq.check", "id": x},
+                  {"op": "sq.SR", "id": x},
                   {"op": "sq.forge", "id": x, "delays": r.random() < 0.5, "filters": r.random() < 0.5, "time": r.random() < 0.5}]
             if not with_subs:
                 rd += [{"op": "sq.awg", "id": x}, {"op": "sq.seqx", "id": x}, {"op": "sq.seqx", "id": x, "flags": True}]
